@@ -2,8 +2,8 @@ SPECIFICATION Spec
 CONSTANTS
   MaxRedir = 2
   Follow = TRUE
-  KeepPrevious = TRUE
-  DialAgainAfterRefusal = FALSE
+  KeepPrevious = FALSE
+  DialAgainAfterRefusal = TRUE
   MaxTls = 2
 INVARIANTS InsideContract AtMostOneOpen NothingOpenAtTheEnd DialsBounded
 PROPERTY Terminates
